@@ -199,8 +199,6 @@ def cmp_doc_lxml(mo, io, a):
     if unsupported(mo):
         return True
     if a["tok"] == "syntax":
-        if io.get("err") == "LEAK:UnicodeDecodeError" and F.has_surrogate_charref(bytes.fromhex(a["hex"])):
-            return True  # known finding C15-lxml-surrogate-charref
         return "ok" in io or io.get("err") in DOCUMENTED
     return mo == io
 
@@ -479,8 +477,6 @@ def check_xml_bytes(a):
 
 def covered_xml(a, msg):
     data = bytes.fromhex(a["hex"])
-    if msg.startswith("lxml: LEAK:UnicodeDecodeError") and F.has_surrogate_charref(data):
-        return "C15-lxml-surrogate-charref"
     if msg.startswith("native: XmlEventHandler accepted") and F.libxml2_reading(data)[2]:
         return "C15-xml-version-number"
     return None
@@ -667,17 +663,8 @@ def _xml_version_finding():
     return isinstance(r, Doc), "accepted: " + repr(r)[:60]
 
 
-def _lxml_surrogate_finding():
-    from xsdata.formats.dataclass.parsers import XmlParser
-    from xsdata.formats.dataclass.parsers.handlers import LxmlEventHandler
-
-    Doc = _mini()
-    return _raises(lambda: XmlParser(handler=LxmlEventHandler).from_bytes(b"<Doc><x>1&#xD800;</x></Doc>", Doc), "UnicodeDecodeError")
-
-
 FINDINGS = {
     "C15-xml-version-number": _xml_version_finding,
-    "C15-lxml-surrogate-charref": _lxml_surrogate_finding,
 }
 
 TRUSTED = [
